@@ -64,6 +64,16 @@ CoreDocs == <<
    Obj(<<T("MultiPolygon"), C(Arr(<<Arr(<<RingA3, HoleC3, HoleB3>>), Arr(<<Ring1>>)>>))>>),
    Obj(<<T("LineString"), C(Arr(<<P4(1,1,2,3), P4(2,3,4,5), P2(5,5)>>)), <<"properties", Null>>>>),
    Obj(<<T("MultiLineString"), C(Arr(<<Arr(<<P3(1,1,4), P3(2,3,5)>>), Arr(<<P2(4,4), P2(5,5)>>), Arr(<<P4(1,2,3,4), P3(2,1,6)>>)>>))>>),
+   \* perfect rectangles (AllowRects turns them into Rect objects): plain, with a member, 3D
+   Obj(<<T("Polygon"), C(Arr(<<Arr(<<P2(1,1), P2(3,1), P2(3,4), P2(1,4), P2(1,1)>>)>>))>>),
+   Obj(<<T("Polygon"), C(Arr(<<Arr(<<P2(1,1), P2(3,1), P2(3,4), P2(1,4), P2(1,1)>>)>>)), <<"id", Num(1)>>>>),
+   \* almost perfect rectangles (AllowRects must not take them for one): trapezoid, clockwise, other start corner, parallelogram, with a hole
+   Obj(<<T("Polygon"), C(Arr(<<Arr(<<P2(1,1), P2(4,1), P2(4,4), P2(2,4), P2(1,1)>>)>>))>>),
+   Obj(<<T("Polygon"), C(Arr(<<Arr(<<P2(1,1), P2(1,4), P2(3,4), P2(3,1), P2(1,1)>>)>>))>>),
+   Obj(<<T("Polygon"), C(Arr(<<Arr(<<P2(3,1), P2(3,4), P2(1,4), P2(1,1), P2(3,1)>>)>>))>>),
+   Obj(<<T("Polygon"), C(Arr(<<Arr(<<P2(1,1), P2(3,1), P2(4,4), P2(2,4), P2(1,1)>>)>>))>>),
+   Obj(<<T("Polygon"), C(Arr(<<Arr(<<P2(1,1), P2(5,1), P2(5,5), P2(1,5), P2(1,1)>>), Arr(<<P2(2,2), P2(3,2), P2(3,3), P2(2,2)>>)>>))>>),
+   Obj(<<T("Polygon"), C(Arr(<<Arr(<<P3(1,1,2), P3(3,1,2), P3(3,4,2), P3(1,4,2), P3(1,1,2)>>)>>))>>),
    \* foreign members whose keys need escaping, an empty key, nested objects that look like GeoJSON, strings with escapes
    Obj(<<T("Point"), <<"a\"b\\c", Num(1)>>, C(P2(1,2)), <<"", Str("empty key")>>, <<"tab\there", Str("q\"uote\\")>>,
          <<"nested", Obj(<<T("Polygon"), C(Arr(<<>>)), <<"properties", Obj(<<<<"properties", Null>>>>)>>>>)>>>>),
@@ -90,19 +100,24 @@ ExtraDocs == <<
    Obj(<<T("Polygon"), C(Arr(<<Arr(<<P2(1,1), P2(3,1), P2(3,4), P2(1,4), P2(1,1)>>)>>))>>),
    Obj(<<T("Polygon"), C(Arr(<<Arr(<<P2(1,1), P2(3,1), P2(3,4), P2(1,4), P2(1,1)>>)>>)), <<"id", Num(1)>>>>),
    Obj(<<T("GeometryCollection"), <<"geometries", Arr(<<Obj(<<T("Polygon"), C(Arr(<<Arr(<<P2(1,1), P2(3,1), P2(3,4), P2(1,4), P2(1,1)>>)>>))>>), PointD, LineD, PolyD>>)>>>>),
-   \* almost perfect rectangles (AllowRects must not take them for one): trapezoid, clockwise, other start corner, parallelogram, with a hole
-   Obj(<<T("Polygon"), C(Arr(<<Arr(<<P2(1,1), P2(4,1), P2(4,4), P2(2,4), P2(1,1)>>)>>))>>),
-   Obj(<<T("Polygon"), C(Arr(<<Arr(<<P2(1,1), P2(1,4), P2(3,4), P2(3,1), P2(1,1)>>)>>))>>),
-   Obj(<<T("Polygon"), C(Arr(<<Arr(<<P2(3,1), P2(3,4), P2(1,4), P2(1,1), P2(3,1)>>)>>))>>),
-   Obj(<<T("Polygon"), C(Arr(<<Arr(<<P2(1,1), P2(3,1), P2(4,4), P2(2,4), P2(1,1)>>)>>))>>),
-   Obj(<<T("Polygon"), C(Arr(<<Arr(<<P2(1,1), P2(5,1), P2(5,5), P2(1,5), P2(1,1)>>), Arr(<<P2(2,2), P2(3,2), P2(3,3), P2(2,2)>>)>>))>>),
-   Obj(<<T("Polygon"), C(Arr(<<Arr(<<P3(1,1,2), P3(3,1,2), P3(3,4,2), P3(1,4,2), P3(1,1,2)>>)>>))>>),
    Obj(<<T("GeometryCollection"), <<"geometries", Arr(<<Obj(<<T("MultiPoint"), C(Arr(<<>>))>>), Obj(<<T("Point"), C(P2(4,4))>>),
                                                            Obj(<<T("GeometryCollection"), <<"geometries", Arr(<<>>)>>>>), LineD, Obj(<<T("Point"), C(P2(5,2))>>)>>)>>>>),
    Obj(<<T("FeatureCollection"), <<"features", Arr(<<Obj(<<T("Feature"), <<"geometry", Obj(<<T("MultiPolygon"), C(Arr(<<>>))>>)>>>>),
                                                        Obj(<<T("Feature"), <<"geometry", PolyD>>>>), Obj(<<T("Feature"), <<"geometry", Obj(<<T("Point"), C(P2(4,4))>>)>>>>)>>)>>>>)
 >>
-BaseDocs == IF Mode = "c08" THEN CoreDocs \o ExtraDocs ELSE CoreDocs
+\* large documents (c08 only, never mutated): geometries and collections big enough for the segment / child indexes
+SnakeX(k) == LET r == (k-1) \div 40 c == (k-1) % 40 IN 10 + (IF r % 2 = 0 THEN c ELSE 39 - c)
+BigLine == Obj(<<T("LineString"), C(Arr([k \in 1..330 |-> P2(SnakeX(k), 10 + (k-1) \div 40)]))>>)
+SquareRing == Arr([k \in 1..201 |-> IF k <= 50 THEN P2(10 + (k-1), 10) ELSE IF k <= 100 THEN P2(60, 10 + (k-51))
+                                      ELSE IF k <= 150 THEN P2(60 - (k-101), 60) ELSE IF k <= 200 THEN P2(10, 60 - (k-151)) ELSE P2(10, 10)])
+BigPoly == Obj(<<T("Polygon"), C(Arr(<<SquareRing, Arr(<<P2(20,20), P2(30,20), P2(30,30), P2(20,30), P2(20,20)>>)>>)), <<"id", Str("big")>>>>)
+BigMulti == Obj(<<T("MultiPolygon"), C(Arr(<<Arr(<<SquareRing>>), Arr(<<Ring1>>)>>))>>)
+BigFC == Obj(<<T("FeatureCollection"), <<"features", Arr([k \in 1..70 |-> Obj(<<T("Feature"), <<"geometry", Obj(<<T("Point"), C(P2(10 + (k % 50), 10 + ((k * 7) % 50)))>>)>>, <<"properties", Obj(<<<<"k", Num(k % 8)>>>>)>>>>)])>>>>)
+BigGC == Obj(<<T("GeometryCollection"), <<"geometries", Arr([k \in 1..66 |-> IF k % 11 = 0 THEN Obj(<<T("MultiPoint"), C(Arr(<<>>))>>)
+                                                                         ELSE Obj(<<T("LineString"), C(Arr(<<P2(10 + (k % 40), 12), P2(11 + (k % 40), 13 + (k % 30))>>))>>)])>>>>)
+BigDocs == <<BigLine, BigPoly, BigMulti, BigFC, BigGC>>
+NMutable == IF Mode = "c08" THEN Len(CoreDocs) + Len(ExtraDocs) ELSE Len(CoreDocs)
+BaseDocs == IF Mode = "c08" THEN CoreDocs \o ExtraDocs \o BigDocs ELSE CoreDocs
 Repl == <<Null, True, Num(1), Str("Nope"), Arr(<<>>), Obj(<<>>), Arr(<<Num(1)>>), Arr(<<Num(1), Num(2), Num(3), Num(4), Num(5)>>), P2(6,6)>>
 NOps == Len(Repl) + 6
 \* mutation m = <<path, op>>
@@ -119,7 +134,7 @@ ApplyAll(d, ms) == IF ms = <<>> THEN d ELSE ApplyAll(Apply(d, ms[1][1], ms[1][2]
 Doc == IF b = 0 THEN Null ELSE ApplyAll(BaseDocs[b], mut)
 Init == b = 0 /\ mut = <<>>
 Next == \/ b = 0 /\ \E k \in 1..Len(BaseDocs) : b' = k /\ mut' = <<>>
-        \/ b > 0 /\ Len(mut) < MaxMut /\ \E p \in Paths(Doc) \ {<<>>} : \E op \in 1..NOps : mut' = Append(mut, <<p, op>>) /\ b' = b
+        \/ b > 0 /\ b <= NMutable /\ Len(mut) < MaxMut /\ \E p \in Paths(Doc) \ {<<>>} : \E op \in 1..NOps : mut' = Append(mut, <<p, op>>) /\ b' = b
 Spec == Init /\ [][Next]_vars
 \* base documents are well formed: they must be accepted
 BaseAccepted == b > 0 /\ mut = <<>> => Verdict(BaseDocs[b]) = "acc"
